@@ -2,6 +2,7 @@ package keeper
 
 import (
 	saodid "github.com/SaoNetwork/sao-did"
+	saodidparser "github.com/SaoNetwork/sao-did/parser"
 	sid "github.com/SaoNetwork/sao-did/sid"
 	saodidtypes "github.com/SaoNetwork/sao-did/types"
 	saodidutil "github.com/SaoNetwork/sao-did/util"
@@ -22,6 +23,19 @@ func (k Keeper) verifySignature(ctx sdk.Context, owner string, proposal Proposal
 	}
 
 	var querySidDocument = func(versionId string) (*sid.SidDocument, error) {
+		// only a document version of the owner's own sid can speak for it
+		if parsedOwner, err := saodidparser.Parse(owner); err == nil {
+			ownVersion := false
+			versions, _ := k.did.GetSidDocumentVersion(ctx, parsedOwner.ID)
+			for _, v := range versions.VersionList {
+				if v == versionId {
+					ownVersion = true
+				}
+			}
+			if !ownVersion {
+				return nil, nil
+			}
+		}
 		doc, found := k.did.GetSidDocument(ctx, versionId)
 		if found {
 			var keys = make([]*sid.PubKey, 0)
